@@ -33,7 +33,7 @@ CHECKS = {
         text='MIR symbolic execution of every read method of Snapshot / BaseTransaction / both write transactions and of Keyspace::{iter,range,prefix}: '
              'z3 decides that each tree read uses exactly the view\'s instant and that returned iterators own a registered nonce; every path of every '
              'view-consuming function closes its tracker registration exactly once; each SnapshotTracker operation is one inductive step from an arbitrary '
-             'state satisfying the tracker invariant (3 DashMap slots, 2 ghost holders, 64-bit instants). Counterexamples are replayed natively '
+             'state satisfying the tracker invariant (3 DashMap slots, 2 ghost holders, 64-bit instants); a batch becomes visible in one step (obligation shared with C06). Counterexamples are replayed natively '
              '(frozen-view oracle, open-snapshot counts, GC + flush + major compaction battery).',
         design_ref='DESIGN.md §5 C05',
         note='Trusted: contract E2/E3/E5 for lsm-tree (reads at an instant, GC watermark rule, SuperVersion retention), F3/F4 (locks, DashMap as a bounded map). '
@@ -45,7 +45,7 @@ CHECKS = {
         text='MIR symbolic execution of every read/write method of the optimistic write transaction (z3: the recorded read covers what was read, under the right '
              'keyspace id; every write records its conflict key), of ConflictManager::has_conflict against its set-theoretic specification for symbolic reads of every '
              'shape and bound kind (<= 2 reads x <= 2 keys, abstract key order), and of Oracle::with_commit (validation range ts > instant, no effect on conflict, '
-             'registration after apply under one mutex, pruning vs GC watermark). Counterexamples are replayed natively as SSI histories.',
+             'registration after apply under one mutex, pruning vs GC watermark), and of the single-operation helpers of OptimisticTxKeyspace (they commit through the oracle, never write to the inner keyspace directly). Counterexamples are replayed natively as SSI histories incl. helper histories.',
         design_ref='DESIGN.md §5 C07',
         note='Trusted: contract for BTreeMap/BTreeSet (incl. the range panic rule), lsm-tree reads, Mutex. Outside: histories longer than the bounded shapes, '
              'schedules finer than the oracle mutex, lsm-tree prefix_to_range.',
@@ -56,7 +56,7 @@ CHECKS = {
         text='MIR symbolic execution of every write (insert/remove/remove_weak/clear/batch commit) and read entry point of a keyspace, of Iter/Guard and of the '
              'maintenance workers; z3 decides on all paths that the caller\'s key/value/kind reach this handle\'s tree exactly once with the one seqno drawn, that the '
              'write is published before the call returns, that reads pass the key unchanged at SeqNo::MAX and forward to the same-named tree method, and that maintenance '
-             'hands the tree the tracker\'s GC watermark. lsm-tree itself is covered by contract E1-E8 only. Counterexamples are replayed natively against a sorted reference map.',
+             'hands the tree the tracker\'s GC watermark; batch items that can belong to one keyspace are applied in the order given (symbolic sort model for reorderings); a bulk ingestion holds the journal lock across the tree ingestion. lsm-tree itself is covered by contract E1-E8 only. Counterexamples are replayed natively against a sorted reference map.',
         design_ref='DESIGN.md §5 C01',
         note='Trusted: lsm-tree implements an MVCC ordered map (E1-E8), conversions preserve byte identity. Outside: lsm-tree internals (tables, merge, blob separation), '
              'key/value sizes, configurations other than through the contract, concurrency (C14).',
@@ -75,7 +75,7 @@ CHECKS = {
         category='model_checking',
         text='MIR symbolic execution of every writer: z3/path analysis shows seqno draw, journal appends, tree apply and publish inside one critical section of the journal mutex; '
              'rotation protocol and ingestion locking; a z3 model with a symbolic schedule of two writers (steps extracted from insert) and a reader proves every interleaving linearizable '
-             '(with a vacuity twin without the mutex that must be satisfiable). Liveness of write stalls is not applicable.',
+             '(with a vacuity twin without the mutex that must be satisfiable). Liveness of write stalls is not applicable; its safety part is decided: no writer enters the stall / maintenance code while holding the journal lock.',
         design_ref='DESIGN.md §5 C14',
         note='Trusted: Mutex mutual exclusion, sequential consistency at event granularity, lsm-tree memtable linearizability (E10). Outside: liveness, more than 2 writers + 1 reader, hardware memory ordering.',
         technique='MIR symbolic execution + z3 bounded schedule model; native two-thread replay',
@@ -116,7 +116,7 @@ CHECKS = {
         text='MIR symbolic execution of the journal writer (persist for each mode from an arbitrary dirty-flag state, dirty-flag invariant of every appending method, rotate ordering), '
              'of Database::persist, batch durability and the automatic persist of the single-operation writers; a z3 cursor model (appended >= OS-visible >= durable) composes the '
              'extracted persist paths into every program of <= 4 steps over {write, persist(mode)} and proves that a write acknowledged before an Ok sync-level persist is durable. '
-             'Counterexamples are replayed natively: power-loss images are built from an strace log of the real run (bytes written before the last fsync/fdatasync of each journal).',
+             'Translator validation: the real journal I/O trace of every writer (trace hook) must equal the journal-event projection of a symbolic path. Counterexamples are replayed natively: power-loss images are built from an strace log of the real run (bytes written before the last fsync/fdatasync of each journal), for workloads with single writes, batches with their own durability, clears and forced journal rotation.',
         design_ref='DESIGN.md §5 C09',
         note='Trusted: F1/F2 (BufWriter/flush/fsync contract). Outside: what fsync does on the device, durability of lsm-tree table files, directory-entry durability beyond the order of fsync_directory calls.',
         technique='MIR symbolic execution + z3 bounded cursor model; native power-loss replay from strace',
@@ -126,7 +126,7 @@ CHECKS = {
         text='Writer and reader are both executed from MIR at byte level: Writer::write_raw/write_batch/write_clear produce the journal image (keys/values of concrete length, '
              'symbolic content, checksum = uninterpreted collision-free function of the item bytes); JournalBatchReader::next -> JournalReader::next -> Entry::decode_from run over '
              'that image for EVERY end offset and both tails (EOF / pre-allocated zeros). z3 decides that exactly the complete units are emitted with identical contents, no error, '
-             'truncation to the last complete unit, and that a unit appended after the repair is read back. Plus framing of each unit and one-batch-per-transaction. '
+             'truncation to the last complete unit, and that a unit appended after the repair is read back. Plus framing of each unit, one-batch-per-transaction, and the batch being applied and published under one hold of the journal lock (no rotation can land inside it). '
              'Counterexamples are replayed natively by cutting a real journal at the byte offset.',
         design_ref='DESIGN.md §5 C03',
         note='Trusted: F5 (xxh3 as collision-free uninterpreted function), Read/Seek/set_len contract of BufReader<File>. Outside: > 3 units x 2 items, keys > 2 / values > 2 bytes, '
@@ -197,7 +197,7 @@ CHECKS = {
         text='MIR symbolic execution: every writer touches only its own handle\'s tree and journals under that keyspace\'s id (batch: item i -> keyspace i); writes through a deleted handle return '
              'KeyspaceDeleted before any lock/journal/tree effect; delete_keyspace flags the handle only after the meta keyspace removal succeeded; MetaKeyspace::remove_keyspace ingests tombstones for the '
              'id->name key and all stored configuration keys and removes the name; Database::recover (symbolic journal and keyspace ids, as C11) applies a record only to the tree of the keyspace whose id it carries, '
-             'never applies unresolvable records, and leaves the keyspace id counter above every id that occurs in a journal record. Counterexamples are replayed natively with create/write/delete/re-create/reopen histories.',
+             'never applies unresolvable records, and leaves the keyspace id counter above every id that occurs in a record of the active or of a sealed journal; delete_keyspace removes only the handle\'s own keyspace (ids compared); Database::keyspace looks up and registers a new name under one hold of the dictionary lock; recover_keyspaces over a symbolic directory recovers each resolvable directory under its own id / stored name / folder and raises the id counter above them. Counterexamples are replayed natively with create/write/delete/re-create/reopen histories.',
         design_ref='DESIGN.md §5 C12',
         note='Trusted: HashMap/RwLock contract, lsm-tree ingestion as event stub, file removal on last handle drop (F2). Outside: recover_keyspaces directory scan (stubbed in the recover harness), > 2 keyspaces.',
         technique='MIR symbolic execution + z3 (handle identity, symbolic ids); native lifecycle replay',
